@@ -918,3 +918,35 @@ pub fn install_log_sink() {
     }
     let _ = tracing::subscriber::set_global_default(Sink);
 }
+
+/// Host strings that mean something to SOME layer (IP literals in every notation, bracketed literals, names with ports, case,
+/// trailing dots, IDNA, control characters, maximal labels): penguin treats a target host as opaque octets everywhere below the
+/// application, so every one of them must travel unchanged. Random octets practically never form one of these.
+pub fn host_dictionary() -> Vec<Vec<u8>> {
+    let mut v: Vec<Vec<u8>> = [
+        "", "localhost", "LOCALHOST", "LocalHost", "Example.COM", "example.com", "example.com.", "EXAMPLE.com.", "127.0.0.1", "127.1", "0x7f.0.0.1", "0177.0.0.1", "2130706433", "0.0.0.0",
+        "255.255.255.255", "1.2.3.4.", "001.002.003.004", "::1", "[::1]", "[::1]:80", "::", "[::]", "::ffff:1.2.3.4", "[::ffff:1.2.3.4]", "::ffff:0102:0304", "0:0:0:0:0:0:0:1", "[0:0:0:0:0:0:0:1]",
+        "2001:db8::1", "[2001:db8::1]", "[2001:DB8::1]", "2001:0db8:0000:0000:0000:0000:0000:0001", "fe80::1%eth0", "[fe80::1%eth0]", "[fe80::1%25eth0]", "[]", "[", "]", "[::1", "::1]", "[[::1]]",
+        "host:80", "host:", ":80", "user@host", "user:pw@host", " host", "host ", "\thost", "host\n", "host\r\n", "host\r\nX-Injected: 1", "host\0", "\0", "\0host", "a\0b", "%00", "host%20name", "%5B::1%5D",
+        "xn--bcher-kva.example", "b\u{fc}cher.example", "B\u{dc}CHER.example", "\u{212a}elvin.example", "ex\u{e4}mple.com", "\u{ff45}xample.com", "http://example.com/", "example.com/path", "//example.com",
+        "*.example.com", "-", ".", "..", "...", "a..b", ".example.com", "-a.example", "a-.example", "_srv._tcp.example", "0", "00", "1", "65536", "-1", "1e3", "0x10", "NaN", "null", "None", "undefined", "true",
+        "unix:/tmp/sock", "/tmp/sock", "\\\\server\\share", "C:\\", "~", "$HOME", "${jndi:x}", "'", "\"", "`id`", ";", "&&", "|",
+    ]
+    .iter()
+    .map(|s| s.as_bytes().to_vec())
+    .collect();
+    // octets that are not UTF-8 at all, alone and around an otherwise meaningful host
+    v.push(vec![0xff]);
+    v.push(vec![0xc3]);
+    v.push(vec![0xff, 0xfe, b'a']);
+    v.push([b"[::1]".as_slice(), &[0xff]].concat());
+    v.push([&[0x80u8][..], b"[::1]"].concat());
+    // maximal DNS shapes: 63-octet labels, a 253-octet and a 255-octet name
+    let label = "a".repeat(63);
+    v.push(label.clone().into_bytes());
+    v.push(format!("{label}.{label}.{label}.{}", "b".repeat(61)).into_bytes());
+    v.push(format!("{label}.{label}.{label}.{}", "b".repeat(63)).into_bytes());
+    v.push("A".repeat(255).into_bytes());
+    v.push(format!("[{}]", "f".repeat(253)).into_bytes());
+    v
+}
